@@ -25,10 +25,13 @@ inline void parse_trace(const std::string& buf, Exec& x)
 	size_t i = 0;
 	while (i < buf.size()) {
 		size_t e = buf.find('\n', i); if (e == std::string::npos) e = buf.size();
-		const char *l = buf.c_str() + i;
+		// sscanf on a pointer into the whole buffer runs strlen over the rest of it for every line (quadratic on a trace of
+		// 10^5 points): parse a copy of the one line
+		char lb[256]; size_t ll = std::min(e - i, sizeof lb - 1); memcpy(lb, buf.data() + i, ll); lb[ll] = 0;
+		const char *l = lb;
 		if (l[0] == 'P') { Pt p {}; int rf = 0; unsigned long long h = 0; int got = sscanf(l + 2, "%d %d %d %d %d %llx", &p.n, &rf, &p.thread, &p.choice, &p.tag, &h); p.running_first = rf; p.has_hash = got == 6; p.hash = h; x.pts.push_back(p); }
-		else if (l[0] == 'E') x.end.assign(l + 2, e - i - 2);
-		else if (l[0] == 'O') x.outcome.assign(l + 2, e - i - 2);
+		else if (l[0] == 'E') x.end.assign(buf.data() + i + 2, e - i - 2);
+		else if (l[0] == 'O') x.outcome.assign(buf.data() + i + 2, e - i - 2);
 		i = e + 1;
 	}
 }
